@@ -1412,10 +1412,14 @@ class Mesh:
     def load_npz(cls, filename: str):
 
         data = np.load(filename)
+        # tags and orientations refer to the elements as they were stored
+        kwargs = ({'sort_t': bool(data['sort_t'])}
+                  if 'sort_t' in data.files else {})
 
         return cls(
             data['doflocs'],
             data['t'],
+            **kwargs,
             _boundaries={
                 key[2:]: (OrientedBoundary(data[key], data['o_' + key[2:]])
                           if 'o_' + key[2:] in data.files else data[key])
@@ -1443,6 +1447,7 @@ class Mesh:
             filename,
             doflocs=self.doflocs,
             t=self.t,
+            sort_t=self.sort_t,
             **boundaries,
             **orientations,
             **subdomains,
